@@ -23,19 +23,20 @@ Proof.
     exists lo', hi'. split; [reflexivity|]. split; assumption.
 Qed.
 
-Lemma check_annot_parts : forall v E S p m, check_annot v E S p m = true ->
-  0 <= S /\
-  (exists lo hi, aget m 0 = Some (lo, hi) /\ lo <= 0 <= hi) /\
+Lemma check_annot_parts : forall v E S d0 p m, check_annot v E S d0 p m = true ->
+  0 <= d0 <= S /\
+  (exists lo hi, aget m 0 = Some (lo, hi) /\ lo <= d0 <= hi) /\
   (forall i, In i p -> 0 <= i_off i) /\
   (forall i, In i p -> check_instr v E S m i = true).
 Proof.
-  intros v E S p m H. unfold check_annot in H.
+  intros v E S d0 p m H. unfold check_annot in H.
   apply andb_true_iff in H. destruct H as [H H4].
   apply andb_true_iff in H. destruct H as [H H3].
   apply andb_true_iff in H. destruct H as [H1 H2].
-  apply Z.leb_le in H1.
+  apply andb_true_iff in H1. destruct H1 as [H1 H1'].
+  apply Z.leb_le in H1. apply Z.leb_le in H1'.
   rewrite forallb_forall in H3. rewrite forallb_forall in H4.
-  split; [exact H1|]. split; [|split].
+  split; [lia|]. split; [|split].
   - destruct (aget m 0) as [[lo hi]|]; [|discriminate].
     apply andb_true_iff in H2. destruct H2 as [Ha Hb].
     apply Z.leb_le in Ha. apply Z.leb_le in Hb.
@@ -45,19 +46,19 @@ Proof.
 Qed.
 
 Section Annot.
-  Variables (v : pyver) (E : effects) (S : Z) (p : list instr) (m : annot).
-  Hypothesis Hchk : check_annot v E S p m = true.
+  Variables (v : pyver) (E : effects) (S : Z) (d0 : Z) (p : list instr) (m : annot).
+  Hypothesis Hchk : check_annot v E S d0 p m = true.
 
-  Lemma chk_S : 0 <= S.
-  Proof. exact (proj1 (check_annot_parts v E S p m Hchk)). Qed.
-  Lemma chk_entry : exists lo hi, aget m 0 = Some (lo, hi) /\ lo <= 0 <= hi.
-  Proof. exact (proj1 (proj2 (check_annot_parts v E S p m Hchk))). Qed.
+  Lemma chk_S : 0 <= d0 <= S.
+  Proof. exact (proj1 (check_annot_parts v E S d0 p m Hchk)). Qed.
+  Lemma chk_entry : exists lo hi, aget m 0 = Some (lo, hi) /\ lo <= d0 <= hi.
+  Proof. exact (proj1 (proj2 (check_annot_parts v E S d0 p m Hchk))). Qed.
   Lemma chk_nonneg : forall i, In i p -> 0 <= i_off i.
-  Proof. exact (proj1 (proj2 (proj2 (check_annot_parts v E S p m Hchk)))). Qed.
+  Proof. exact (proj1 (proj2 (proj2 (check_annot_parts v E S d0 p m Hchk)))). Qed.
   Lemma chk_instr : forall i, In i p -> check_instr v E S m i = true.
-  Proof. exact (proj2 (proj2 (proj2 (check_annot_parts v E S p m Hchk)))). Qed.
+  Proof. exact (proj2 (proj2 (proj2 (check_annot_parts v E S d0 p m Hchk)))). Qed.
 
-  Lemma annot_invariant : forall pc d, reachable_depth v E p pc d ->
+  Lemma annot_invariant : forall pc d, reachable_depth v E d0 p pc d ->
     0 <= d <= S /\
     (forall i, instr_at p pc i -> exists lo hi, aget m pc = Some (lo, hi) /\ lo <= d <= hi).
   Proof.
@@ -78,7 +79,7 @@ Section Annot.
       + exists lo', hi'. split; [exact Ha'|lia].
   Qed.
 
-  Lemma annot_progress : forall pc d i, reachable_depth v E p pc d -> instr_at p pc i ->
+  Lemma annot_progress : forall pc d i, reachable_depth v E d0 p pc d -> instr_at p pc i ->
     exists es, edges v E i = Some es.
   Proof.
     intros pc d i Hr Hat.
@@ -91,13 +92,13 @@ Section Annot.
   Qed.
 End Annot.
 
-Lemma depth_ok_sound : forall v E S p, depth_ok v E S p = true -> depth_bounded v E S p.
+Lemma depth_ok_sound : forall v E S d0 p, depth_ok v E S d0 p = true -> depth_bounded v E S d0 p.
 Proof.
-  intros v E S p H. unfold depth_ok in H.
-  destruct (compute_annot v E S p) as [m| |]; try discriminate.
+  intros v E S d0 p H. unfold depth_ok in H.
+  destruct (compute_annot v E S d0 p) as [m| |]; try discriminate.
   split.
-  - intros pc d Hr. exact (proj1 (annot_invariant v E S p m H pc d Hr)).
-  - intros pc d i Hr Hat. exact (annot_progress v E S p m H pc d i Hr Hat).
+  - intros pc d Hr. exact (proj1 (annot_invariant v E S d0 p m H pc d Hr)).
+  - intros pc d i Hr Hat. exact (annot_progress v E S d0 p m H pc d i Hr Hat).
 Qed.
 
 (** * 2. boundaries *)
@@ -164,11 +165,11 @@ Proof.
 Qed.
 
 (** paths stay on instruction boundaries: every reachable offset is the entry, the exit, or an instruction start *)
-Lemma reachable_on_boundary : forall v E len p,
-  jumps_land v len p -> forall pc d, reachable_depth v E p pc d ->
+Lemma reachable_on_boundary : forall v E d0 len p,
+  jumps_land v len p -> forall pc d, reachable_depth v E d0 p pc d ->
   pc = 0 \/ pc = exit_pc \/ (0 <= pc < len /\ exists j, instr_at p pc j).
 Proof.
-  intros v E len p Hj pc d H. destruct H as [|pc d i es t e Hr Hat He Hin].
+  intros v E d0 len p Hj pc d H. destruct H as [|pc d i es t e Hr Hat He Hin].
   - left. reflexivity.
   - right. destruct (edges_targets v E i es t e He Hin) as [Hx|Ht].
     + left. exact Hx.
